@@ -86,6 +86,24 @@ RESCAN_F = ["x + 1", "x", "(x) * A"]
 RESCAN_A = ["F", "1 + F", "F F", "ID"]
 RESCAN_ID = ["m", "m m", "(m)", "m + 0"]
 RESCAN_H = ["a b", "b a", "a"]
+# ## chains (ISO C 6.10.3.5 EXAMPLE 5 shapes): any subset of the operands may be empty
+PASTE_DEFS = ["#define T(x, y, z) x ## y ## z", "#define U(x, y, z) p x ## y ## z", "#define W(x, y, z) x ## y ## z q",
+              "#define K(x, y) [x ## y]", "#define Q(x, y, z, w) x ## y ## z ## w"]
+PASTE_ARGS = ["", "1", "a", "12"]
+
+
+def paste_cases():
+    for d in PASTE_DEFS:
+        name = d.split()[1].split("(")[0]
+        n = d.split("(")[1].split(")")[0].count(",") + 1
+        for args in itertools.product(PASTE_ARGS, repeat=n):
+            if sum(1 for a in args if a) <= 2:           # results stay valid tokens (at most two non-empty operands)
+                yield {"defs": [d], "inv": f"{name}({','.join(args)})"}
+    # identifiers that are words of the implementation language are ordinary macro names
+    for nm in ("None", "True", "self", "ident", "EXPANSION"):
+        yield {"defs": [f"#define {nm} 5", "#define ID(x) x"], "inv": f"{nm} + ID({nm})"}
+
+
 RESCAN_INV = ["ID(A)(2)", "ID(F)(2)", "ID(7 * A)(2)", "A(2)", "A (A(2))", "H(A, 1)(2)", "H(1, A)(2)", "ID(ID(A))(2)", "ID(A(3))",
               "ID(A)(ID(2))", "ID(A)", "ID(A)(2) ID(A)(3)", "ID(ID)(A)(2)", "H(ID, A)(2)", "ID(A)(2)(3)", "H(A, A)(2)"]
 
@@ -118,6 +136,7 @@ class Expansion:
         if tier == "quick":
             allr = random.Random(seed + 7).sample(allr, 250)
         yield from allr
+        yield from paste_cases()
 
     def nontrivial(self, inp):
         return getattr(self, "_valid", False)
@@ -169,11 +188,11 @@ class DashD:
     role = "bounded check"
 
     def bound(self, tier):
-        return "all definition strings over 4 heads x 7 values"
+        return "all definition strings over 4 heads x 11 values (incl. values that start with '=')"
 
     def inputs(self, tier, seed):
         for head in ("N", "N(a)", "N(a, b)", "N(a, ...)"):
-            for val in (None, "", "1", "a + 1", "a b", "(a)", "x=y"):
+            for val in (None, "", "1", "a + 1", "a b", "(a)", "x=y", "== 1", "=", "= a", "!= 0"):     # the option is cut at the FIRST "="
                 yield {"head": head, "val": val}
 
     def nontrivial(self, inp):
